@@ -89,7 +89,14 @@ func checkC07(c *Ctx) {
 	}
 	R.min("C07.bind", 6)
 
-	// ---- C07.dup
+	ruleDupDeep(c, u, "C07.dup")
+	ruleNewObjectCopies(c, u, "C07.obj")
+	ruleFreshLiteralsAndStores(c, u)
+}
+
+// ruleDupDeep - DuplicateValue is a deep copy for lists and dictionaries, identity for objects
+func ruleDupDeep(c *Ctx, u *Universe, rule string) {
+	R := c.R
 	if f := u.ssaFunc("pkg/value", "DuplicateValue"); f != nil {
 		pos := u.pos(f.Pos())
 		// sources: loads of the fields value / keyOrder of the (type-asserted) input
@@ -116,7 +123,7 @@ func checkC07(c *Ctx) {
 			}
 		}
 		if nSrc < 3 {
-			R.viol("C07.dup", "pkg/value.DuplicateValue:sources", pos, fmt.Sprintf("expected loads of Array.value, HashMap.value and HashMap.keyOrder in the copy routine, found %d (a container kind is no longer walked)", nSrc))
+			R.viol(rule, "pkg/value.DuplicateValue:sources", pos, fmt.Sprintf("expected loads of Array.value, HashMap.value and HashMap.keyOrder in the copy routine, found %d (a container kind is no longer walked)", nSrc))
 		}
 		// sinks: tainted container data stored anywhere, passed to a call other than DuplicateValue, or returned
 		nSink := 0
@@ -158,7 +165,7 @@ func checkC07(c *Ctx) {
 				}
 			}
 		}
-		R.check(nSink == 0, "C07.dup", "pkg/value.DuplicateValue:deep", pos,
+		R.check(nSink == 0, rule, "pkg/value.DuplicateValue:deep", pos,
 			"nothing owned by the source list/dictionary (elements, nested containers, key order) reaches the copy except through a recursive DuplicateValue", "the copy shares data with its source: "+bad)
 		// both container kinds produce a fresh container
 		for _, k := range []struct{ typ, ctor string }{{"Array", "pkg/value.NewArray"}, {"HashMap", "pkg/value.NewHashMap"}} {
@@ -169,15 +176,19 @@ func checkC07(c *Ctx) {
 				}
 			}
 			okK = okK && len(u.callsNamed(f, k.ctor)) >= 1
-			R.check(okK, "C07.dup", "pkg/value.DuplicateValue:"+k.typ, pos, "has a copying case building a new "+k.typ, "no copying case for *"+k.typ)
+			R.check(okK, rule, "pkg/value.DuplicateValue:"+k.typ, pos, "has a copying case building a new "+k.typ, "no copying case for *"+k.typ)
 		}
 		// objects are shared: no case constructs a new Object
-		R.check(len(u.callsNamed(f, "pkg/value.NewObject")) == 0, "C07.dup", "pkg/value.DuplicateValue:Object", pos, "objects are returned by identity (shared by reference)", "objects are copied on assignment")
+		R.check(len(u.callsNamed(f, "pkg/value.NewObject")) == 0, rule, "pkg/value.DuplicateValue:Object", pos, "objects are returned by identity (shared by reference)", "objects are copied on assignment")
 	} else {
-		R.lost("C07.dup", "pkg/value.DuplicateValue")
+		R.lost(rule, "pkg/value.DuplicateValue")
 	}
 
-	// ---- C07.obj
+}
+
+// ruleNewObjectCopies - every class default goes through DuplicateValue
+func ruleNewObjectCopies(c *Ctx, u *Universe, rule string) {
+	R := c.R
 	if f := u.ssaFunc("pkg/value", "NewObject"); f != nil {
 		isSrc := func(v ssa.Value) bool {
 			call, ok := v.(*ssa.Call)
@@ -193,12 +204,16 @@ func checkC07(c *Ctx) {
 				}
 			}
 		}
-		R.check(n >= 2 && bad == 0 && len(u.callsNamed(f, "pkg/value.DuplicateValue")) >= 1, "C07.obj", "pkg/value.NewObject", u.pos(f.Pos()),
+		R.check(n >= 2 && bad == 0 && len(u.callsNamed(f, "pkg/value.DuplicateValue")) >= 1, rule, "pkg/value.NewObject", u.pos(f.Pos()),
 			"every class default put into a new object went through DuplicateValue", "a class default value is shared between the type and its instances")
 	} else {
-		R.lost("C07.obj", "pkg/value.NewObject")
+		R.lost(rule, "pkg/value.NewObject")
 	}
 
+}
+
+func ruleFreshLiteralsAndStores(c *Ctx, u *Universe) {
+	R := c.R
 	// ---- C07.fresh
 	if f := u.ssaFunc("pkg/exec", "evalPrimeExpr"); f != nil {
 		okAll, n := true, 0
